@@ -276,9 +276,9 @@ def audit(modules):
         p = subprocess.run(["lake", "env", "lean", fn], cwd=LEAN, stdout=subprocess.PIPE, stderr=subprocess.STDOUT)
     out = p.stdout.decode(errors="replace")
     res = {n: None for n in names}
-    for m in re.finditer(r"'([^']+)' depends on axioms: \[([^\]]*)\]", out):
+    for m in re.finditer(r"'(\S+)' depends on axioms: \[([^\]]*)\]", out):
         res[m.group(1)] = [a.strip() for a in m.group(2).replace("\n", " ").split(",") if a.strip()]
-    for m in re.finditer(r"'([^']+)' does not depend on any axioms", out):
+    for m in re.finditer(r"'(\S+)' does not depend on any axioms", out):
         res[m.group(1)] = []
     return res, out
 
